@@ -32,6 +32,13 @@ type caseSpec struct {
 	// StdErr: leave the default stderr error report on (production default) or not.
 	StdErr bool `json:"stderr"`
 
+	// AtStop (work part): the item stays inside its function until the module is being
+	// stopped (its context is cancelled) and panics then; healthy items end at the stop.
+	AtStop bool `json:"at_stop,omitempty"`
+
+	// TaskDeferUS: delay (µs) at hook point modules.task.defer (0 = hook idle).
+	TaskDeferUS int `json:"task_defer_us,omitempty"`
+
 	// API part.
 	Method  string `json:"method,omitempty"`  // GET | POST
 	DevMode bool   `json:"devmode,omitempty"` // core/devMode on: 500 body carries value + stack
@@ -89,7 +96,7 @@ type childOut struct {
 var (
 	workKinds = []string{
 		"runworker", "startworker", "serviceworker",
-		"task-queue", "task-prio", "task-asap", "task-schedule",
+		"task-queue", "task-prio", "task-asap", "task-schedule", "task-repeat",
 		"mt-run-high", "mt-run-med", "mt-run-low",
 		"mt-start-high", "mt-start-med", "mt-start-low",
 		"hook-trigger", "hook-inject",
@@ -108,7 +115,7 @@ var (
 	healthyKinds = []string{"worker", "serviceworker", "mt-high", "mt-med", "mt-low", "task", "hook"}
 )
 
-func isTaskKind(k string) bool  { return len(k) > 5 && k[:5] == "task-" }
+func isTaskKind(k string) bool { return len(k) > 5 && k[:5] == "task-" }
 func isBlockingKind(k string) bool {
 	return k == "runworker" || k == "mt-run-high" || k == "mt-run-med" || k == "mt-run-low"
 }
